@@ -10,7 +10,7 @@ import z3
 from pyvc import sorts as S
 from pyvc import spec
 from pyvc.sorts import Node, Ty, B
-from pyvc.symex import Obj, DictVal, is_node, is_z3, PyRaise, ExcVal
+from pyvc.symex import Obj, DictVal, Builtin, is_node, is_z3, PyRaise, ExcVal
 from pyvc.harness import Variant
 from pyvc.world import Contract
 from . import core
@@ -170,6 +170,71 @@ class ModelVariant(Variant):
         return []
 
 
+class PluralVariant(Variant):
+    """Model.get_values / get_py_values on a list of two formulae: the answer for each formula is what the single-formula call
+    gives for it WITH THE SAME completion flag (the single-formula contracts above then carry 'exact value / error or a value
+    that holds for every completion' over to the plural calls and to `satisfies`, which is built on get_values)."""
+    prop_ids = ("C02",)
+    replay_kind = "model-plural"
+
+    def __init__(self, world, method, completion, how="keyword"):
+        self.world, self.method, self.completion, self.how = world, method, completion, how
+        self.single = {"get_values": "get_value", "get_py_values": "get_py_value"}[method]
+        self.qualname = "pysmt.solvers.solver.Model." + method
+        self.name = "model-plural:%s/%s/%s" % (method, "completion" if completion else "no-completion", how)
+
+    def setup(self, ex):
+        W = self.world
+        env = core.make_env(ex, W)
+        self.f, self.g = z3.Const("formula", Node), z3.Const("other_formula", Node)
+        for x in (self.f, self.g):
+            W.touch(ex, x)
+        ex.assume(self.f != self.g)
+        self.V = z3.Function("single_call_answer", Node, B, Node)
+        self.asked = []
+        v = self
+        m = Obj(EM, {"environment": env, "_converter": None, "assignment": DictVal([]), "completed_assignment": DictVal([])},
+                tag="model")
+        def single(exx, a, kw):
+            x = a[1] if len(a) > 1 and isinstance(a[0], Obj) else a[0]
+            rest = a[2:] if len(a) > 1 and isinstance(a[0], Obj) else a[1:]
+            mc = rest[0] if rest else kw.get("model_completion", True)
+            mc = mc if is_z3(mc) else z3.BoolVal(bool(mc))
+            v.asked.append((x, mc))
+            if exx.decide(exx.fresh("single_call_raises", B)):
+                exx.ghost["single_failed"] = (x, mc)
+                raise PyRaise(ExcVal("PysmtTypeError", ("partial model",)))
+            r_ = v.V(x, mc)
+            W.touch(exx, r_)
+            return r_
+        m.fields[self.single] = Builtin(self.single, single, bound=m)
+        self.model = m
+        fi = W.repo.method(EM, self.method)
+        fn = W.wrap_func(fi, fi.module, bound=m)
+        if self.how == "keyword":
+            return fn, [[self.f, self.g]], {"model_completion": self.completion}
+        if self.how == "positional":
+            return fn, [[self.f, self.g], self.completion], {}
+        return fn, [[self.f, self.g]], {}                       # default: completion requested
+
+    def check(self, ex, outcome):
+        kind, r = outcome
+        want = z3.BoolVal(bool(self.completion))
+        if kind == "raise":
+            failed = ex.ghost.get("single_failed")
+            ok = failed is not None
+            return [("error-only-when-the-single-call-fails", z3.BoolVal(bool(ok))),
+                    ("failing-single-call-was-asked-with-the-given-completion-flag", (failed[1] == want) if ok else z3.BoolVal(False))]
+        if not isinstance(r, DictVal):
+            return [("returns-a-dictionary", z3.BoolVal(False))]
+        goals = [("one-entry-per-formula", z3.BoolVal(len(r.items) == 2))]
+        for x, nm in ((self.f, "first"), (self.g, "second")):
+            hit = [v_ for k_, v_ in r.items if is_node(k_) and k_.eq(x)]
+            goals.append(("%s-formula-maps-to-its-single-call-answer-with-the-same-completion-flag" % nm,
+                          (hit[0] == self.V(x, want)) if len(hit) == 1 and is_node(hit[0]) else z3.BoolVal(False)))
+        return goals
+
+
 def _py_eq(ex, r, f):
     t = S.type_of(f)
     from pyvc.symex import is_sym_bool, is_sym_int, is_sym_real, is_sym_str
@@ -190,7 +255,7 @@ def extras(prop, tier, seed):
     if prop != "C02":
         return []
     from pyvc.report import run_bounded
-    return [run_bounded("model_eval", tier, seed)]
+    return [run_bounded("model_eval", tier, seed), run_bounded("plural_model", tier, seed)]
 
 
 def variants(world, tier="quick", only=None):
@@ -201,6 +266,10 @@ def variants(world, tier="quick", only=None):
         out.append(ModelVariant(world, "__getitem__", n))
         out.append(ModelVariant(world, "get_py_value", n, True))
         out.append(ModelVariant(world, "satisfies", n))
+        out.append(ModelVariant(world, "get_py_value", n, False))
+    for meth in ("get_values", "get_py_values"):
+        for comp, how in ((True, "keyword"), (False, "keyword"), (False, "positional"), (True, "default")):
+            out.append(PluralVariant(world, meth, comp, how))
     if only:
         out = [v for v in out if any(o in v.name for o in only)]
     return out
